@@ -1,11 +1,211 @@
 (* C01 — Wire primitives round-trip and report exact sizes.
-   Statements only; each closed by [exact] of a lemma proved elsewhere. *)
+   Statements only; each closed by [exact] of a lemma proved in Wire/VarintP.v,
+   Wire/PrimP.v, Wire/ScanP.v, Wire/WireGoP.v.  The spec-level model is
+   Wire/WireModel.v; the functions translated from wire.go are Gen/WireGo.v. *)
 From Coq Require Import List NArith ZArith.
-From PB Require Import Base.PBytes Wire.WireModel Wire.VarintP.
+From PB Require Import Base.PBytes Base.GoInt Wire.WireModel Wire.WireGrammar Wire.VarintP Wire.ScanP Wire.PrimP.
+From PB Require Import Gen.WireGo Wire.WireGoP.
 Import ListNotations.
 Open Scope N_scope.
 
+(* ---------------- varint ---------------- *)
 Theorem C01_varint_roundtrip :
   forall v rest, v < 2^64 -> dec_varint (enc_varint v ++ rest) = Ok (v, rest).
 Proof. exact varint_roundtrip. Qed.
 Print Assumptions C01_varint_roundtrip.
+
+(* len(AppendVarint(v)) = SizeVarint(v), the closed form (9*bitlen+64)/64 *)
+Theorem C01_varint_size :
+  (forall v, v < 2^64 -> N.of_nat (length (enc_varint v)) = size_varint v) /\
+  (forall v, v < 2^64 -> N.of_nat (length (enc_varint v)) = N.max 1 ((N.size v + 6) / 7)).
+Proof. exact (conj enc_varint_length enc_varint_length_bits). Qed.
+Print Assumptions C01_varint_size.
+
+(* minimality: whatever byte string the decoder maps to v is at least as long *)
+Theorem C01_varint_minimal :
+  forall bs v r, dec_varint bs = Ok (v, r) -> (length (enc_varint v) <= length bs - length r)%nat.
+Proof. exact varint_minimal. Qed.
+Print Assumptions C01_varint_minimal.
+
+(* ---------------- fixed32 / fixed64 ---------------- *)
+Theorem C01_fixed_roundtrip :
+  (forall v rest, v < 2^32 ->
+    dec_fixed32 (enc_fixed32 v ++ rest) = Ok (v, rest) /\ length (enc_fixed32 v) = 4%nat) /\
+  (forall v rest, v < 2^64 ->
+    dec_fixed64 (enc_fixed64 v ++ rest) = Ok (v, rest) /\ length (enc_fixed64 v) = 8%nat).
+Proof. exact (conj fixed32_roundtrip fixed64_roundtrip). Qed.
+Print Assumptions C01_fixed_roundtrip.
+
+(* the decoders are also injective: the consumed bytes are the encoding of the result *)
+Theorem C01_fixed_decode_encode :
+  (forall bs v r, dec_fixed32 bs = Ok (v, r) -> bs = enc_fixed32 v ++ r /\ v < 2^32) /\
+  (forall bs v r, dec_fixed64 bs = Ok (v, r) -> bs = enc_fixed64 v ++ r /\ v < 2^64).
+Proof. exact (conj ((fixed_decode_encode 4)) ((fixed_decode_encode 8))). Qed.
+Print Assumptions C01_fixed_decode_encode.
+
+(* ---------------- zig-zag: a bijection int64 <-> uint64 ---------------- *)
+Theorem C01_zigzag_bijective :
+  (forall x, zz_dec (zz_enc x) = x) /\
+  (forall n, zz_enc (zz_dec n) = n) /\
+  (forall x, (- 2^63 <= x < 2^63)%Z -> zz_enc x < 2^64) /\
+  (forall n, n < 2^64 -> (- 2^63 <= zz_dec n < 2^63)%Z).
+Proof. exact (conj zz_dec_enc (conj zz_enc_dec (conj zz_enc_range zz_dec_range))). Qed.
+Print Assumptions C01_zigzag_bijective.
+
+(* ---------------- bool ---------------- *)
+Theorem C01_bool_bijective :
+  (forall b, dec_bool (enc_bool b) = b) /\
+  (forall n, n < 2 -> enc_bool (dec_bool n) = n).
+Proof. exact (conj bool_roundtrip bool_enc_dec). Qed.
+Print Assumptions C01_bool_bijective.
+
+(* ---------------- tags ---------------- *)
+Theorem C01_tag_bijective :
+  (forall num typ, num <= 2147483647 -> typ < 8 -> decode_tag (encode_tag num typ) = Some (num, typ)) /\
+  (forall n1 t1 n2 t2, t1 < 8 -> t2 < 8 -> encode_tag n1 t1 = encode_tag n2 t2 -> n1 = n2 /\ t1 = t2) /\
+  (forall x num typ, decode_tag x = Some (num, typ) -> encode_tag num typ = x /\ typ < 8 /\ num <= 2147483647).
+Proof. exact (conj tag_decode_encode (conj tag_encode_injective tag_encode_decode)). Qed.
+Print Assumptions C01_tag_bijective.
+
+(* through bytes, for every number the code supports (1 .. 2^31-1, which
+   includes the documented range 1 .. 2^29-1) *)
+Theorem C01_tag_roundtrip :
+  forall num typ rest, num_ok num -> typ < 8 ->
+    dec_tag (enc_tag num typ ++ rest) = Ok (num, typ, rest) /\
+    N.of_nat (length (enc_tag num typ)) = size_tag num.
+Proof. exact tag_roundtrip. Qed.
+Print Assumptions C01_tag_roundtrip.
+
+(* ---------------- bytes / string (strings are byte strings in the model) ---------------- *)
+Theorem C01_bytes_roundtrip :
+  forall v rest, N.of_nat (length v) < 2^64 ->
+    dec_bytes (enc_bytes v ++ rest) = Ok (v, rest) /\
+    N.of_nat (length (enc_bytes v)) = size_bytes (N.of_nat (length v)).
+Proof. exact bytes_roundtrip. Qed.
+Print Assumptions C01_bytes_roundtrip.
+
+(* ---------------- groups ---------------- *)
+(* for every body that is a sequence of well-formed fields (C02 grammar) nested
+   at most DefaultRecursionLimit deep *)
+Theorem C01_group_roundtrip :
+  forall num body rest, num_ok num -> wf_fields (N.to_nat 10000) body ->
+    consume_group num (append_group num body ++ rest)
+      = Ok (Some body, size_group num (N.of_nat (length body))) /\
+    N.of_nat (length (append_group num body)) = size_group num (N.of_nat (length body)).
+Proof. exact group_roundtrip. Qed.
+Print Assumptions C01_group_roundtrip.
+
+(* ---------------- wire trees: the scanner inverts the renderer ---------------- *)
+Theorem C01_parse_render :
+  forall v num rest dep, wf_val v -> num_ok num -> (wdepth v <= dep)%nat ->
+    parse_val dep num (wtype_of v) (render_val num v ++ rest) = Ok (v, rest).
+Proof. exact parse_render. Qed.
+Print Assumptions C01_parse_render.
+
+(* ---------------- Tier T: the Go code of wire.go, regenerated on every run,
+   equals the model (go_eq_spec) ---------------- *)
+Theorem C01_go_Varint :
+  (forall b v, v < 2^64 -> go_AppendVarint (zbytes b) (Z.of_N v) = zbytes (b ++ enc_varint v)) /\
+  (forall bs, go_ConsumeVarint (zbytes bs) = Val (zres_vn (dec_varint bs) bs)) /\
+  (forall v, v < 2^64 -> go_SizeVarint (Z.of_N v) = Z.of_N (size_varint v)).
+Proof. exact (conj go_AppendVarint_spec (conj go_ConsumeVarint_spec go_SizeVarint_spec)). Qed.
+Print Assumptions C01_go_Varint.
+
+Theorem C01_go_Fixed :
+  (forall b v, v < 2^32 -> go_AppendFixed32 (zbytes b) (Z.of_N v) = zbytes (b ++ enc_fixed32 v)) /\
+  (forall b v, v < 2^64 -> go_AppendFixed64 (zbytes b) (Z.of_N v) = zbytes (b ++ enc_fixed64 v)) /\
+  (forall bs, go_ConsumeFixed32 (zbytes bs) = Val (zres_vn (dec_fixed32 bs) bs)) /\
+  (forall bs, go_ConsumeFixed64 (zbytes bs) = Val (zres_vn (dec_fixed64 bs) bs)) /\
+  go_SizeFixed32 = 4%Z /\ go_SizeFixed64 = 8%Z.
+Proof. exact go_Fixed_spec. Qed.
+Print Assumptions C01_go_Fixed.
+
+Theorem C01_go_ZigZag_Bool :
+  ((forall x, (- 2^63 <= x < 2^63)%Z -> go_EncodeZigZag x = Z.of_N (zz_enc x)) /\
+  (forall n, n < 2^64 -> go_DecodeZigZag (Z.of_N n) = zz_dec n)) /\
+  ((forall b, go_EncodeBool b = Z.of_N (enc_bool b)) /\
+  (forall n, go_DecodeBool (Z.of_N n) = dec_bool n)).
+Proof. exact (conj go_ZigZag_spec go_Bool_spec). Qed.
+Print Assumptions C01_go_ZigZag_Bool.
+
+Theorem C01_go_Tag :
+  (forall num typ, num <= 2147483647 -> typ < 8 ->
+     go_EncodeTag (Z.of_N num) (Z.of_N typ) = Z.of_N (encode_tag num typ)) /\
+  (forall x, x < 2^64 ->
+     go_DecodeTag (Z.of_N x) = match decode_tag x with
+                               | Some (num, typ) => (Z.of_N num, Z.of_N typ)
+                               | None => (-1, 0)%Z
+                               end) /\
+  (forall b num typ, num <= 2147483647 -> typ < 8 ->
+     go_AppendTag (zbytes b) (Z.of_N num) (Z.of_N typ) = zbytes (b ++ enc_tag num typ)) /\
+  (forall num, num <= 2147483647 -> go_SizeTag (Z.of_N num) = Z.of_N (size_tag num)).
+Proof. exact go_Tag_spec. Qed.
+Print Assumptions C01_go_Tag.
+
+Theorem C01_go_Bytes :
+  (forall b v, N.of_nat (length v) < 2^64 ->
+     go_AppendBytes (zbytes b) (zbytes v) = zbytes (b ++ enc_bytes v) /\
+     go_AppendString (zbytes b) (zbytes v) = zbytes (b ++ enc_bytes v)) /\
+  (forall n, n < 2^62 -> go_SizeBytes (Z.of_N n) = Z.of_N (size_bytes n)) /\
+  (forall bs, (Z.of_nat (length bs) < 2^63)%Z ->
+     go_ConsumeBytes (zbytes bs) = Val (zres_bytes (dec_bytes bs) bs) /\
+     go_ConsumeString (zbytes bs) = Val (zres_bytes (dec_bytes bs) bs)) /\
+  (forall b num v, num <= 2147483647 ->
+     go_AppendGroup (zbytes b) (Z.of_N num) (zbytes v) = zbytes (b ++ append_group num v)) /\
+  (forall num n, num <= 2147483647 -> n < 2^62 ->
+     go_SizeGroup (Z.of_N num) (Z.of_N n) = Z.of_N (size_group num n)).
+Proof. exact go_Bytes_spec. Qed.
+Print Assumptions C01_go_Bytes.
+
+(* ---------------- non-vacuity ---------------- *)
+Example C01_ex_varint : dec_varint (enc_varint 300 ++ [xff]) = Ok (300, [xff]) /\ enc_varint 300 = [xac; x02].
+Proof. split; [apply C01_varint_roundtrip|]; vm_compute; reflexivity. Qed.
+Example C01_ex_varint_max : N.of_nat (length (enc_varint 18446744073709551615)) = 10.
+Proof. rewrite (proj1 C01_varint_size) by (vm_compute; reflexivity). vm_compute. reflexivity. Qed.
+Example C01_ex_minimal : (length (enc_varint 1) <= length [x81; x80; x00; xff] - length [xff])%nat.
+Proof. apply (C01_varint_minimal [x81; x80; x00; xff] 1 [xff]). vm_compute. reflexivity. Qed.
+Example C01_ex_fixed32 : dec_fixed32 (enc_fixed32 4294967295 ++ []) = Ok (4294967295, []).
+Proof. apply (proj1 C01_fixed_roundtrip). vm_compute. reflexivity. Qed.
+Example C01_ex_fixed64 : dec_fixed64 (enc_fixed64 (2^63) ++ [x01]) = Ok (2^63, [x01]).
+Proof. apply (proj2 C01_fixed_roundtrip). vm_compute. reflexivity. Qed.
+Example C01_ex_zigzag : zz_enc (-9223372036854775808) = 18446744073709551615 /\ zz_dec 18446744073709551615 = (-9223372036854775808)%Z.
+Proof. vm_compute. split; reflexivity. Qed.
+Example C01_ex_bool : enc_bool (dec_bool 1) = 1.
+Proof. apply (proj2 C01_bool_bijective). vm_compute. reflexivity. Qed.
+Example C01_ex_tag : dec_tag (enc_tag 2147483647 7 ++ []) = Ok (2147483647, 7, []).
+Proof. apply C01_tag_roundtrip; [split|]; vm_compute; congruence. Qed.
+Example C01_ex_bytes : dec_bytes (enc_bytes [x61; x62] ++ [x63]) = Ok ([x61; x62], [x63]).
+Proof. apply C01_bytes_roundtrip. vm_compute. reflexivity. Qed.
+Example C01_ex_group_body : wf_fields (N.to_nat 10000) [x08; x96; x01; x13; x14].
+Proof.
+  apply (wf_seq_cons _ [x08] 1 0 [x96; x01] [x13; x14]).
+  - vm_compute. repeat split; auto; discriminate.
+  - discriminate.
+  - rewrite wf_value_eq. cbv iota. apply varint_bytes_decl. exists [x96], x01.
+    split; [reflexivity|]. split; [repeat constructor; vm_compute; discriminate|].
+    split; [cbn; auto with arith|vm_compute; reflexivity].
+  - apply (wf_seq_cons _ [x13] 2 3 [x14] []).
+    + vm_compute. repeat split; auto; discriminate.
+    + discriminate.
+    + replace (N.to_nat 10000) with (S (N.to_nat 9999)) by (rewrite <- Nnat.N2Nat.inj_succ; reflexivity).
+      rewrite wf_value_eq. cbv iota.
+      exists [], [x14]. split; [reflexivity|]. split; [constructor|]. vm_compute. repeat split; auto; discriminate.
+    + constructor.
+Qed.
+Example C01_ex_group :
+  consume_group 5 (append_group 5 [x08; x96; x01; x13; x14] ++ [x00])
+  = Ok (Some [x08; x96; x01; x13; x14], size_group 5 5).
+Proof. apply C01_group_roundtrip; [split; vm_compute; congruence|exact C01_ex_group_body]. Qed.
+Example C01_ex_parse_render :
+  parse_val 2 1 3 (render_val 1 (WGroup [(2, WLen [x61]); (3, WGroup [])]) ++ [x07])
+  = Ok (WGroup [(2, WLen [x61]); (3, WGroup [])], [x07]).
+Proof.
+  apply (C01_parse_render (WGroup [(2, WLen [x61]); (3, WGroup [])]) 1 [x07] 2).
+  - cbn. repeat split; try (vm_compute; congruence).
+  - split; vm_compute; congruence.
+  - cbn. auto.
+Qed.
+Example C01_ex_go_varint : go_AppendVarint (zbytes [x00]) (Z.of_N 300) = [0; 172; 2]%Z.
+Proof. rewrite (proj1 C01_go_Varint) by (vm_compute; reflexivity). vm_compute. reflexivity. Qed.
+Example C01_ex_go_consume : go_ConsumeVarint [172; 2; 99]%Z = Val (300, 2)%Z.
+Proof. apply (proj1 (proj2 C01_go_Varint) [xac; x02; x63]). Qed.
